@@ -57,8 +57,61 @@ def convAll (num : List (Str × Nat)) : List Ecal.Lex.Tok → Option (List LTok)
     | some a, some as => some (a :: as)
     | _, _ => none
 
+/-- `parser.next` skips comment tokens (they only become meta data of a node) -/
+def dropComments (l : List Ecal.Lex.Tok) : List Ecal.Lex.Tok :=
+  l.filter fun t => !(t.id == Ecal.Lex.tPRECOMMENT || t.id == Ecal.Lex.tPOSTCOMMENT)
+
+/-! ### the documented reading of number literals (known finding `number-exponent-split`)
+
+ecal.md: "Numbers can be expressed in all common notations … 1.234560e+02 Scientific notation".
+The lexer takes an exponent into a number only when it is written `e+digit` (lower case, plus
+sign); `1e5`, `1E+5`, `2e-1` are SPLIT into a number, an identifier (`e5`, `E`, `e`), a sign and a
+number. `mergeExponents` puts such directly adjacent tokens back together: the reference reading. -/
+
+def allDigits (s : List Nat) : Bool := !s.isEmpty && s.all fun c => 48 ≤ c && c ≤ 57
+
+def isE (c : Nat) : Bool := c = 101 || c = 69
+
+def adjacent (a b : Ecal.Lex.Tok) : Bool := b.pos = a.pos + a.val.length
+
+/-- `has v` : the float bits of the number text `v` are known (ParseFloat accepts it) -/
+def mergeExponents (has : List Nat → Bool) : List Ecal.Lex.Tok → List Ecal.Lex.Tok
+  | n :: x :: s :: m :: rest =>
+    if n.id = Ecal.Lex.tNUMBER && x.id = Ecal.Lex.tIDENTIFIER && adjacent n x then
+      match x.val with
+      | [c] =>
+        let sign := if idText s.id = some "+" then some 43 else if idText s.id = some "-" then some 45 else none
+        match sign with
+        | some sg =>
+          let v := n.val ++ [101, sg] ++ m.val
+          if isE c && adjacent x s && adjacent s m && m.id = Ecal.Lex.tNUMBER && allDigits m.val && has v then
+            { n with val := v } :: mergeExponents has rest
+          else n :: mergeExponents has (x :: s :: m :: rest)
+        | none => n :: mergeExponents has (x :: s :: m :: rest)
+      | c :: ds =>
+        let v := n.val ++ (101 :: ds)
+        if isE c && allDigits ds && has v then { n with val := v } :: mergeExponents has (s :: m :: rest)
+        else n :: mergeExponents has (x :: s :: m :: rest)
+      | [] => n :: mergeExponents has (x :: s :: m :: rest)
+    else n :: mergeExponents has (x :: s :: m :: rest)
+  | n :: x :: rest =>
+    if n.id = Ecal.Lex.tNUMBER && x.id = Ecal.Lex.tIDENTIFIER && adjacent n x then
+      match x.val with
+      | c :: ds =>
+        let v := n.val ++ (101 :: ds)
+        if isE c && allDigits ds && has v then { n with val := v } :: mergeExponents has rest
+        else n :: mergeExponents has (x :: rest)
+      | [] => n :: mergeExponents has (x :: rest)
+    else n :: mergeExponents has (x :: rest)
+  | l => l
+termination_by l => l.length
+
+/-- the token list under the documented reading of number literals -/
+def lexTokensDocumented (num : List (Str × Nat)) (src : List Nat) : Option (List LTok) :=
+  convAll num (mergeExponents (fun v => (num.find? (·.1 = v)).isSome) (dropComments (Ecal.Lex.lex src).toList))
+
 /-- the token list of a source text (`none`: the float bits of a NUMBER text were not supplied) -/
 def lexTokens (num : List (Str × Nat)) (src : List Nat) : Option (List LTok) :=
-  convAll num (Ecal.Lex.lex src).toList
+  convAll num (dropComments (Ecal.Lex.lex src).toList)
 
 end Ecal.Expr
